@@ -11,13 +11,18 @@ use std::collections::BTreeMap;
 
 pub fn gen_strategy(rng: &mut Rng, est_steps: u32, concurrent: bool) -> SchedSpec {
     let seed = rng.next_u64();
-    let est = ((est_steps as f64) * (0.2 + rng.f64() * 1.3)) as u32 + 10;
+    // est_steps is an estimate of the number of CHOICE points (scheduling points with more than one
+    // runnable task) of the run; measured ratios are 40-300 per client operation depending on the
+    // workload, so the horizon for change points / freeze triggers is drawn log-uniformly over
+    // [0.1, 3] x the estimate
+    let factor = (0.1f64.ln() + rng.f64() * (3.0f64.ln() - 0.1f64.ln())).exp();
+    let est = ((est_steps as f64) * factor) as u32 + 10;
     let w: [u32; 4] = if concurrent { [20, 20, 30, 30] } else { [30, 30, 15, 25] };
     let strategy = match rng.weighted(&w) {
         0 => Strategy::Random,
         1 => Strategy::Sticky { q_permille: *rng.pick(&[500u32, 800, 950, 990]) },
         2 => Strategy::Pct { depth: 1 + rng.below(4) as u32, est_steps: est },
-        _ => Strategy::Freeze { k: 1 + rng.below(4) as u32, est_steps: est, budget: *rng.pick(&[200u32, 2000, 20000, 200000]), sticky_permille: *rng.pick(&[0u32, 500, 900]) },
+        _ => Strategy::Freeze { k: 1 + rng.below(4) as u32, est_steps: est, budget: *rng.pick(&[200u32, 2000, 20000, 60000]), sticky_permille: *rng.pick(&[0u32, 500, 900]) },
     };
     SchedSpec { strategy, seed }
 }
@@ -65,7 +70,7 @@ fn exec_conc(case: &Case) -> CaseResult {
 fn conc_case(run_seed: u64, tier: Tier, profile: ConcProfile) -> Case {
     let mut rng = Rng::new(run_seed);
     let (plan, params) = gen_conc(&mut rng, profile, tier == Tier::Thorough);
-    let est = (plan.op_count() as u32) * 40;
+    let est = (plan.op_count() as u32) * 60;
     let sched = gen_strategy(&mut rng.fork("sched"), est, true);
     Case { engine: Engine::Conc, run_seed, plan, sched, schedule: None, fault: None, params, image: None, max_steps: Some(2_000_000), log_plan: None, lock_plan: None, corrupt: None }
 }
@@ -95,7 +100,7 @@ fn hist_case(run_seed: u64, tier: Tier, profile: Profile) -> Case {
     let mut rng = Rng::new(run_seed);
     let size = if tier == Tier::Quick { QUICK } else { THOROUGH };
     let plan = gen_hist(&mut rng, profile, size);
-    let est = (plan.op_count() as u32) * 60;
+    let est = (plan.op_count() as u32) * 80;
     let sched = gen_strategy(&mut rng.fork("sched"), est, false);
     Case { engine: Engine::Hist, run_seed, plan, sched, schedule: None, fault: None, params: BTreeMap::new(), image: None, max_steps: None, log_plan: None, lock_plan: None, corrupt: None }
 }
@@ -441,7 +446,7 @@ fn lock_spec() -> CheckSpec {
             let mut knobs = crate::plan::Knobs::gen(&mut rng.fork("knobs"));
             knobs.max_memtable_size = *rng.fork("mem").pick(&[700usize, 1024, 2048, 4096]);
             knobs.max_file_size = 1024;
-            let sched = gen_strategy(&mut rng.fork("sched"), 1500, true);
+            let sched = gen_strategy(&mut rng.fork("sched"), 900, true);
             Case {
                 engine: Engine::LockRace,
                 run_seed: rs,
@@ -459,7 +464,7 @@ fn lock_spec() -> CheckSpec {
         }),
         exec: Box::new(exec_case),
         evals: Box::new(|_| 1),
-        runs_quick: 10_000,
+        runs_quick: 16_000,
         runs_thorough: 600_000,
         wall_quick: 60.0,
         wall_thorough: 1200.0,
